@@ -241,6 +241,16 @@ func replayLocking(c *core.Ctx, lfsBin string, b *behaviour, idx int) (*core.Vio
 			}
 			f.WriteString("edited by " + s.U + "\n")
 			f.Close()
+			if s.Kind == "staged" || s.Kind == "both" {
+				if err := must(run(d, "git", "add", "--", file), "git add"); err != nil {
+					return nil, err
+				}
+			}
+			if s.Kind == "both" {
+				f, _ := os.OpenFile(filepath.Join(d, file), os.O_APPEND|os.O_WRONLY, 0)
+				f.WriteString("and once more after staging\n")
+				f.Close()
+			}
 		case "push":
 			os.Chmod(filepath.Join(d, file), 0o644)
 			os.WriteFile(filepath.Join(d, file), []byte(fmt.Sprintf("new content pushed by %s step %d\n", s.U, i)), 0o644)
@@ -389,7 +399,7 @@ func sampleLockBehaviours(c *core.Ctx, file string, budget int) ([]*behaviour, i
 		var k []string
 		for _, s := range st {
 			actionsSeen[s.str("a")]++
-			k = append(k, fmt.Sprintf("%s/%v/%v/%v/%s", s.str("a"), s["ok"], s["force"], s["byid"], s.str("u")))
+			k = append(k, fmt.Sprintf("%s%s/%v/%v/%v/%s", s.str("a"), s.str("kind"), s["ok"], s["force"], s["byid"], s.str("u")))
 		}
 		k = append(k, fmt.Sprintf("page=%d", st[0].num("page")))
 		b := &behaviour{steps: st, raw: raw, class: strings.Join(k, ";"), hash: fnvStr(string(raw), c.Seed)}
@@ -409,9 +419,25 @@ func sampleLockBehaviours(c *core.Ctx, file string, budget int) ([]*behaviour, i
 	}
 	sort.Slice(keys, func(i, j int) bool { return fnvStr(keys[i], c.Seed) < fnvStr(keys[j], c.Seed) })
 	var out []*behaviour
+	// classes in which an unlock follows a change that is staged take up to a quarter of the budget first
+	taken := map[string]bool{}
+	for _, k := range keys {
+		if len(out) >= budget/4 {
+			break
+		}
+		if i := strings.Index(k, "editstaged"); i >= 0 && strings.Contains(k[i:], "unlock") {
+			l := byClass[k]
+			sort.Slice(l, func(i, j int) bool { return l[i].hash < l[j].hash })
+			out = append(out, l[0])
+			taken[k] = true
+		}
+	}
 	for _, k := range keys {
 		if len(out) >= budget {
 			break
+		}
+		if taken[k] {
+			continue
 		}
 		l := byClass[k]
 		sort.Slice(l, func(i, j int) bool { return l[i].hash < l[j].hash })
